@@ -9110,7 +9110,12 @@ bool SoPlexBase<R>::_parseSettingsLine(char* line, const int lineNumber)
          && *line != '\0')
       line++;
 
-   if(*line != '\0')
+   if(*line == '#')
+   {
+      // a comment may follow the value directly; the rest of the line is not looked at
+      *line = '\0';
+   }
+   else if(*line != '\0')
    {
       // check, if the rest of the line is clean
       *line = '\0';
@@ -9638,7 +9643,12 @@ bool SoPlexBase<R>::parseSettingsString(char* string)
          && *line != '\0')
       line++;
 
-   if(*line != '\0')
+   if(*line == '#')
+   {
+      // a comment may follow the value directly; the rest of the line is not looked at
+      *line = '\0';
+   }
+   else if(*line != '\0')
    {
       // check, if the rest of the line is clean
       *line = '\0';
